@@ -270,7 +270,7 @@ def make_search(mido, depth, base=(0, 0)):
         fr = fresh_copy(mido, f)
         todo = [op[1]] if op[0] == 'obs' else []
         first = True
-        probe = OBS if not base[0] else ('iter', 'length', 'merged')
+        probe = OBS if not base[0] else ('iter', 'merged')
         for what in todo + [w for w in probe if w not in todo]:
             if op[0] == 'obs' and first:
                 got = obs
@@ -323,7 +323,7 @@ def run():
     srch.run(rep.violation, procs=common.nproc())
     srch.fill(rep)
     # the same from large files (caches that only switch on beyond a size)
-    bases = ((1, 600), (3, 200)) if not thorough else (
+    bases = ((2, 300),) if not thorough else (
         (1, 600), (3, 200), (2, 1100), (9, 70))
     bdepth = 2
     for base in bases:
